@@ -18,21 +18,21 @@
     (OptionalState bookkeeping, named results and deferred resets included), in Lex/LexParse2Model.v
     ([parseTL2File] = tokenizer + [parseTokens2]); the model is compared with the real ParseTL2File on every
     run (corr:C20:lex, field PM: ok / error class, outer, begin and end position).
-    Proved for ALL inputs and every fuel ([C20_parser_safe_partial]): the parser model never reaches one of the
-    panic sites of the Go code (tokenIterator.front/popFront out of range -- eof is only popped by the final
-    expectLazy(eof) --, log.Panicf in skipWS, val[1:] on an empty value, value[:dotIndex] with dotIndex = -1,
-    the "unexpected token in whitespace" panic and the fileContent[a:b] slices of parseCommentBefore /
-    parseCommentRight), and every error it records is located at a token of the input with the first token
-    of the combinator as outer context, hence lies inside the text and is printed by consolePrint without
-    any out-of-range slice.
-    Why "_partial": the model uses structural fuel (10 * (tokens + 2)); that this budget is never exhausted
-    ([PR_nofuel]) is not proved, only checked on every input of the correspondence run.  The AST construction
-    is outside the model; for it the implementation-side oracle applies (recover(), error offsets,
-    ConsolePrint/Error() do not panic).
-    [C20_parser_error_in_range_partial] is the same in-range statement for the abstract error model
+    Proved for ALL inputs ([C20_parser_total]): the parser model terminates within its structural fuel
+    (10 * (tokens + 2); every recursive call or loop iteration happens after a consumed token or goes down
+    the acyclic order Type -> TypeApplication / BracketType, TypeArgument -> Type of non-consuming calls),
+    never reaches one of the panic sites of the Go code (tokenIterator.front/popFront out of range -- eof is
+    only popped by the final expectLazy(eof) --, log.Panicf in skipWS, val[1:] on an empty value,
+    value[:dotIndex] with dotIndex = -1, the "unexpected token in whitespace" panic and the fileContent[a:b]
+    slices of parseCommentBefore / parseCommentRight), and every error it records is located at a token of
+    the input with the first token of the combinator as outer context, hence lies inside the text and is
+    printed by consolePrint without any out-of-range slice.
+    The AST construction is outside the model; for it the implementation-side oracle applies (recover(),
+    error offsets, ConsolePrint/Error() do not panic).
+    [C20_admissible_error_in_range] is the same in-range statement for the abstract error model
     [admissibleErr]. *)
 From Coq Require Import List NArith ZArith.
-From TLV Require Import Lex.LexModel Lex.LexProofs Lex.LexParse1Model Lex.LexParse2Model Lex.LexParse2Proofs.
+From TLV Require Import Lex.LexModel Lex.LexProofs Lex.LexParse1Model Lex.LexParse2Model Lex.LexParse2Proofs Lex.LexParse2Fuel.
 Import ListNotations.
 Open Scope N_scope.
 
@@ -95,8 +95,9 @@ Theorem C20_tokenizer_error_in_range : forall builtin dirty s e,
 Proof. exact (fun b d => tokenizer_error_in_range (opt b d)). Qed.
 Print Assumptions C20_tokenizer_error_in_range.
 
-(** partial: about the abstract error model, not about a transcription of the parser (see header) *)
-Theorem C20_parser_error_in_range_partial : forall builtin dirty s toks e,
+(** the abstract error model: any error located at a token with an earlier-or-equal token as outer context is in
+    range (used by the parser theorem above; also what the implementation-side oracle checks on Go's own errors) *)
+Theorem C20_admissible_error_in_range : forall builtin dirty s toks e,
   parseFront (opt builtin dirty) s = Ok (F_tokens toks) -> admissibleErr toks e ->
   errCorrupted (lenN s) e = false /\
   p_off (e_begin e) <= p_off (e_end e) <= lenN s /\
@@ -104,10 +105,10 @@ Theorem C20_parser_error_in_range_partial : forall builtin dirty s toks e,
   (exists pre, e_begin e = pos_spec pre /\ exists post, s = pre ++ t_val (e_tok e) ++ post) /\
   (exists pre, e_outer e = pos_spec pre /\ exists post, s = pre ++ post).
 Proof. exact (fun b d => parser_error_in_range (opt b d)). Qed.
-Print Assumptions C20_parser_error_in_range_partial.
+Print Assumptions C20_admissible_error_in_range.
 
-(** tokenizer + transcribed parser: no panic site reachable, every error in range (see header for "_partial") *)
-Theorem C20_parser_safe_partial : forall builtin dirty s,
+(** tokenizer + transcribed parser: terminates within the fuel, no panic site reachable, every error in range *)
+Theorem C20_parser_total : forall builtin dirty s,
   match parseTL2File (opt builtin dirty) s with
   | PR_ok => True
   | PR_err _ e =>
@@ -117,17 +118,10 @@ Theorem C20_parser_safe_partial : forall builtin dirty s,
       (exists pre, e_begin e = pos_spec pre /\ exists post, s = pre ++ t_val (e_tok e) ++ post) /\
       (exists pre, e_outer e = pos_spec pre /\ exists post, s = pre ++ post)
   | PR_panic => False
-  | PR_nofuel => True
+  | PR_nofuel => False
   end.
-Proof. exact (fun b d => parseTL2File_safe (opt b d)). Qed.
-Print Assumptions C20_parser_safe_partial.
-
-(** the fuel of the tokenizer is always sufficient; only the parser budget is unproved *)
-Theorem C20_nofuel_only_parser : forall builtin dirty s,
-  parseTL2File (opt builtin dirty) s = PR_nofuel ->
-  exists toks, parseFront (opt builtin dirty) s = Ok (F_tokens toks) /\ parseTokens2 (lenN s) toks = T_nofuel.
-Proof. exact (fun b d => parseTL2File_nofuel_only_parser (opt b d)). Qed.
-Print Assumptions C20_nofuel_only_parser.
+Proof. exact (fun b d => parseTL2File_total (opt b d)). Qed.
+Print Assumptions C20_parser_total.
 
 (** Non-vacuity: the model really tokenizes, reports errors, and the hypotheses are satisfiable. *)
 (* "a#1a2b3c4d <=> _x:Type;\r\n" *)
